@@ -77,6 +77,12 @@ package key
 //@   props C20
 //@   modifies nothing
 //@   ensures [C20:decoded-identity-is-bound-to-the-requested-scheme] err == nil ==> id != nil && isnew(id) && id.Scheme == targetScheme && targetScheme != nil
+// pSelfSigned(n, scheme): the participant record n carries a key and a signature of that key that verifies under the
+// scheme. Whether the identity decoded from n is self-signed is a function of n and the scheme (definition, trusted:
+// decoding copies key and signature).
+//@ ghost selfSigned(ref) bool
+//@ ghost pSelfSigned(ref, ref) bool
+//@   defines err == nil ==> (selfSigned(id) <==> pSelfSigned(n, targetScheme))
 
 //@ func NodeFromProto(n, targetScheme) (node, err)
 //@   props C20
@@ -245,3 +251,25 @@ package key
 //@   modifies s.Scheme, s.Commits, s.Share
 //@   ensures [C20:decoded-share-carries-index-and-commit-count] err == nil && typeis(i, "*ShareTOML") ==> s.Share != nil && s.Share.I == as(i, "*ShareTOML").Index && len(s.Commits) == len(as(i, "*ShareTOML").Commits) && s.Scheme != nil && (as(i, "*ShareTOML").SchemeName != "" ==> s.Scheme.Name == as(i, "*ShareTOML").SchemeName)
 //@   ensures [C20:a-share-of-another-type-is-rejected] !typeis(i, "*ShareTOML") ==> err != nil
+
+// ---- C15: a key or share file that cannot be loaded is reported without reproducing its lines ---------------------------
+// The errors Load returns are logged by the daemon and returned by control endpoints. showsFileText(s): the string s
+// reproduces lines of the file being parsed (a private key file has the key, a share file the share, next to the lines a
+// syntax error can point at).
+//@ ghost showsFileText(string) bool
+//@ extern (github.com/BurntSushi/toml.ParseError).ErrorWithPosition(e) (r)
+//@   trusted BurntSushi/toml: this message includes the offending line of the input and the two lines before it
+//@   modifies nothing
+//@   ensures showsFileText(r)
+//@ extern github.com/BurntSushi/toml.DecodeFile(path, v) (md, err)
+//@   trusted BurntSushi/toml: decodes the file into v; the error it returns carries a position and a key name, no line content (Error(), unlike ErrorWithPosition())
+//@   modifies everything
+//@   ensures forall x string {quotes(err, x)} :: !quotes(err, x)
+//@ iface (Tomler).FromTOML(t, v) (err)
+//@   trusted the decoders of the key-store types see decoded values, never the text of the file (their own errors are checked not to quote encoded secrets: StringToPoint / StringToScalar)
+//@   modifies everything
+//@   ensures forall x string {quotes(err, x)} :: showsFileText(x) ==> !quotes(err, x)
+//@ func Load(filePath, t) (err)
+//@   props C15
+//@   requires [wf] t != nil
+//@   ensures [C15:a-load-failure-does-not-reproduce-lines-of-the-key-file] forall x string {quotes(err, x)} :: showsFileText(x) ==> !quotes(err, x)
